@@ -48,7 +48,7 @@ impl<'store> IRI<'store> for ResultItem<'store, AnnotationDataSet> {
 
 /// Tests if a character is valid or not in an IRI
 fn invalid_in_iri(c: char) -> bool {
-    c == ' ' || c == '\t' || c == '\n' || c == '"'
+    c == ' ' || c == '"' || c == '\\' || c.is_control()
 }
 
 /// Tests whether a string is a valid IRI
